@@ -576,6 +576,11 @@ def _rounder(e):
         if isinstance(e, ast.Call):
             d = ctx_dotted(e.func)
             if d in ROUNDERS:
+                # rounding an already integral value changes nothing: np.round(np.floor(x)) rounds like np.floor
+                if d in ("np.round", "np.rint", "np.around", "round") and e.args:
+                    inner = _rounder(e.args[0])
+                    if inner is not None:
+                        return inner
                 return d
             if d in INTEGRAL_SOURCES:
                 return "integral:" + d
